@@ -53,3 +53,15 @@ Example hex_ex :
   printNonNegativeFloat true 4877717327635671425 [49; 46; 50; 51; 52; 53; 54; 55; 56; 57; 48; 49; 50; 51; 52; 53; 54; 56; 101; 43; 49; 56]
   = ([48; 120; 49; 49; 50; 50; 49; 48; 102; 52; 55; 100; 101; 57; 56; 49; 48; 48], false).
 Proof. vm_compute. reflexivity. Qed.
+
+From V Require Import C01.ScriptProofs.
+(* the specification-side substring test does find what it must *)
+Example contains_ci_ex :
+  contains_ci script_close [34; 60; 47; 83; 99; 82; 105; 80; 116; 62; 34] = true
+  /\ contains_ci script_close [34; 60; 92; 47; 115; 99; 114; 105; 112; 116; 34] = false.
+Proof. vm_compute. split; reflexivity. Qed.
+Example ident_ex :
+  print_identifier_utf16 (mkQ true true true 0 false true) [233; 55362; 57271; 120]
+  = Some [92; 117; 48; 48; 69; 57; 92; 117; 123; 50; 48; 66; 66; 55; 125; 120]
+  /\ ident_value [92; 117; 48; 48; 69; 57; 92; 117; 123; 50; 48; 66; 66; 55; 125; 120] = Some [233; 55362; 57271; 120].
+Proof. vm_compute. split; reflexivity. Qed.
